@@ -3,22 +3,48 @@
 Two halves (DESIGN.md §4 C10).
 (A) finite values: `lean/DK/Props/C10.lean` discharges the side-conditions T1 regenerates from
     functions.py (`Gen.*_defined`) — proof obligations, re-checked against the source on every run.
-(B) shapes / no exception: numpy glue, observed.  T2 runs `leaf.cost / leaf.deriv / leaf.hess /
-    usable.leafcons / tree.cost / tree.deriv / usable.treecons / usable.accept` on both sides; the
-    oracle IS the property (scalar finite cost, R·n finite gradient, (n, n) finite Hessian, finite
-    scalar constraint values, R·n finite Jacobians, flat and shaped flows, no exception).
+(B) shapes / no exception: numpy glue, observed.  T2 runs `usable.leaf.cost / .deriv / .hess`,
+    `usable.leafcons`, `usable.tree.cost / .deriv`, `usable.treecons`, `usable.accept` on both sides and
+    compares ONLY what C10 depends on: the number of entries (shape) and, per entry, definedness — the
+    model's {1, undef} pattern against the implementation's {finite, non-finite / ZeroDivisionError}
+    pattern (`defined`).  Values are never compared (they are tied by C01/C06/C14/C15), so a
+    value-changing but usable edit leaves this tie intact.  The oracle IS the property (0-d finite cost —
+    every shipped class returns a 0-d float64 —, R·n finite gradient, (n, n) finite Hessian, finite size-1
+    constraint values for every constraint with or without a `jac`, R·n finite Jacobians, flat and shaped
+    flows, no exception).  Constraint values are required to have size 1, not to be 0-d: SDevice's state-of-
+    charge closures return a (1,) array for a device-shaped flow on the unchanged tree.
+
+Which divisions / powers are covered by THEOREMS, and which are only observed:
+  proved (Props/C10.lean)   every `/` and general `**` of the eight scalar kernels T1 translates — `ABCCost.s, q,
+                            _cost, _deriv, _hess`, `HLQuadraticCost._cost, _deriv, _hess` — through `Gen.*_defined`
+                            (IDevice, IDevice2, CDevice2, TDevice's `ABCCost(0, 2, c, t_min, t_optimal)`, and the
+                            `hlq` / `abc` / `innerHlq` preference functions of ADevice); the `/len(self)` normalisation
+                            of IDevice / IDevice2 / TDevice `costv` (`len_norm`); `e ** sign(r) = 1/e` and
+                            `/self.capacity` of SDevice (`sdevice_divisors`); `/self.shape[0]` of `MFDeviceSet.project`
+                            (`mf_conduits`).  The hypotheses are the acceptance predicates of Model/Accept.lean, tied to
+                            the constructors by `usable.accept`.
+  observed only (T2 at exact rationals with `undef`, and the oracle)
+                            `utils.soc`, `utils.base_soc`, `utils.sustainment_matrix` / `power_matrix` (non-negative integer
+                            powers of the sustainment, no division; modelled as `npow`), SDevice's `r**2` / `min(·,0)**2`,
+                            `Poly2D` / `Poly2DOffset` / `poly1d` (Horner, no division), `DemandFunction`, `RangesFunction`,
+                            `InnerSumFunction`, all set glue (reshape / vstack / zmm / tile), numdifftools.
+  not modelled at all       `WindowDevice` (`np.average(weights=r)` divides by the flow sum: oracle only, corner
+                            `window_zero_sum_flow`), `InformationEntropy`, `TemporalVariance`, `CobbDouglas` (not generated).
 
 Case streams (all description-first, every random choice from the rng passed in):
   leaf    every shipped leaf class x n x validator-boundary parameters x zero-width slots (some / all)
           x flows on the bounds / interior x flat / device shape x scalar / vector price
   tree    DeviceSet / SubBalancedDeviceSet / MFDeviceSet / TwoRatioMFDeviceSet over such leaves
-  accept  scalar parameters on and next to every validator threshold: the model's acceptance
+  accept  parameters on and next to every validator threshold: the model's acceptance
           predicate (the hypotheses of the theorems) against the real constructors
-  raw     configurations the description language cannot express (oracle only), among them the
+  raw     configurations the description language cannot express (oracle only): WindowDevice, length 0,
+          the REJECTS probes (formerly accepted-but-unusable, now ValueError), and the
           KNOWN-BAD CORNERS: accepted-but-unusable configurations, one clearly named branch each,
           emitted deterministically on every run (see CORNERS).  `VERIF_C10_CORNERS=none` (or a
           comma list) switches the branches off / selects some; the random streams never enter a
-          corner by themselves (`avoid_corners`).
+          corner by themselves (`avoid_leaf_corner`, `avoid_tree_corner`).
+Numerically differentiated Hessians (SDevice, TDevice) are evaluated for every n <= 6, and for n = 24 on
+leaves in the thorough tier (`numeric_hess_ok`); trees containing them for n <= 6.
 """
 import os, math, copy, random
 from fractions import Fraction
@@ -28,7 +54,13 @@ from ..common import F, fs, dy, pf
 
 NS = {'quick': [1, 2, 3, 4, 5, 6], 'thorough': [1, 2, 3, 4, 5, 6, 24, 31]}
 LEAF_CLASSES = list(gen.LEAF_CLASSES)
-NUMERIC_HESS = ('SDevice', 'TDevice')
+NUMERIC_HESS = ('SDevice', 'TDevice')     # Hessian by numdifftools: n = 6 costs 0.04 s, n = 24 0.8 s (SDevice) / 0.06 s (TDevice)
+
+
+def numeric_hess_ok(case, n, tree=False):
+  """numerically differentiated Hessians are evaluated for every n <= 6, and for n = 24 on leaves in the thorough tier
+  (`_hmax`, fixed at generation so that a replay evaluates the same operations)."""
+  return n <= 6 or (not tree and n == 24 and case.get('_hmax', 6) >= 24)
 
 # name -> what is accepted, and what then fails (one branch of the generator each)
 CORNERS = {
@@ -100,7 +132,7 @@ def regen_dependents(rng, d, lb, hb):
   if cls == 'CDevice2':
     want = rng.random() < 0.75 or sum(lb, F(0)) == sum(hb, F(0))
   else:
-    want = bool(d.get('cbs')) and cls != 'TDevice'
+    want = bool(d.get('cbs')) or (cls == 'TDevice' and rng.random() < 0.4)      # gen_leaf never gives a TDevice cbounds
   if want:
     cbs, form = gen.gen_cbounds(rng, n, lb, hb, multi_ok=True)
     if cls == 'CDevice2' and len(cbs) > 1:
@@ -482,9 +514,9 @@ def usable(dev, x_shaped, price, want_hess=True, flat_and_shaped=True):
       except Exception as e:
         out.append(('raises', what, type(e).__name__, '%s(%s flow) raises %s: %s' % (what, vname, type(e).__name__, str(e)[:120])))
         continue
-      ok = {'cost': v.size == 1, 'deriv': v.size == R*n, 'hess': v.shape == (n, n)}[what]
+      ok = {'cost': v.ndim == 0, 'deriv': v.size == R*n, 'hess': v.shape == (n, n)}[what]
       if not ok:
-        want = {'cost': 'a scalar', 'deriv': '%d entries' % (R*n), 'hess': 'shape (%d, %d)' % (n, n)}[what]
+        want = {'cost': 'a scalar (0-d)', 'deriv': '%d entries' % (R*n), 'hess': 'shape (%d, %d)' % (n, n)}[what]
         out.append(('shape', what, None, '%s(%s flow) has shape %s, contract: %s' % (what, vname, v.shape, want)))
       elif not n_.isfinite(v).all():
         out.append(('nonfinite', what, None, '%s(%s flow) is not finite: %s' % (what, vname, v.reshape(-1)[:6])))
@@ -526,9 +558,17 @@ def failure(cls, kind, what, exc, corner, msg, where):
   return {'key': key, 'detail': '%s %s — %s' % (cls, where, msg)}
 
 
+def defined(v):
+  """definedness pattern of an implementation value: 1.0 for a finite entry, nan otherwise (shape kept).
+  C10's tie compares only shapes and this pattern with the model's {1, undef} pattern — never values."""
+  n_ = np()
+  a = n_.array(v, dtype=float)
+  return n_.where(n_.isfinite(a), 1.0, n_.nan)
+
+
 def cons_rows(dev, x):
-  """numeric rows [isEq, hasJac, jac…, value] sorted lexicographically (as the driver does).  The Jacobian
-  entries come first: they are exact in floating point, so rounding noise in a value never decides the order."""
+  """pattern rows [isEq, hasJac, defined(jac)…, defined(value)] of every constraint (with or without a `jac`),
+  sorted lexicographically with non-finite first, as the driver sorts with `undef` first."""
   n_ = np()
   rows = []
   for c in dev.constraints:
@@ -536,15 +576,10 @@ def cons_rows(dev, x):
     v = n_.array(c['fun'](x), dtype=float).reshape(-1)
     assert v.size == 1, 'constraint value of shape %s' % (v.shape,)
     if 'jac' in c:
-      row += [float(u) for u in n_.array(c['jac'](x), dtype=float).reshape(-1)]
-    row.append(float(v[0]))
+      row += [float(u) for u in defined(c['jac'](x)).reshape(-1)]
+    row.append(float(defined(v)[0]))
     rows.append(row)
-  def key(r):
-    k = [(-math.inf if not math.isfinite(u) else u) for u in r]
-    if math.isfinite(k[-1]):
-      k[-1] = float('%.11e' % k[-1])
-    return k
-  rows.sort(key=key)
+  rows.sort(key=lambda r: [(-math.inf if not math.isfinite(u) else u) for u in r])
   return rows
 
 
@@ -684,8 +719,12 @@ def accept_case(rng, tier, n, cls=None, opt=None):
       p[k] = list(p[k]); p[k][slot] = v
     else:
       p[k] = v
-    if cls == 'IDevice' and k == 'b' and rng.random() < 0.7:
-      p['a'] = '0'                             # the base reaches 0 at the upper bound
+    if cls == 'IDevice' and k == 'b':
+      p['a'] = '0'                             # the base reaches 0 at the upper bound of the (non-degenerate) slot,
+      lb = [F(x) for x in d['lb']]; hb = [F(x) for x in d['hb']]     # so a wrongly accepted exponent <= 0 is exercised
+      if lb[slot] == hb[slot]:
+        hb[slot] = lb[slot] + 1
+      d['lb'], d['hb'] = L(lb), L(hb); d['_py']['bform'] = 'table'; d['cbs'] = []; d['_py']['cform'] = None
   return {'kind': 'accept', 'dev': d, '_why': why}
 
 
@@ -785,9 +824,14 @@ class C10(Prop):
           'predicate; non-trivial: the configuration sits on a validator boundary or has a zero-width slot')
   sizes = {'quick': 520, 'thorough': 6000}
   assumptions = ['shape contracts and "does not raise" are observed on the listed horizon lengths, not proved',
+                 'proved defined: every / and general ** of the eight ABCCost / HLQuadraticCost kernels (Gen.*_defined), the /len(self) normalisation, '
+                 'SDevice 1/efficiency and /capacity, MFDeviceSet.project /conduits; observed only: utils.soc / base_soc / sustainment_matrix, Poly2D, '
+                 'set glue, numdifftools; WindowDevice and the three nd-differentiated functions are not modelled',
+                 'T2 compares shapes and per-entry definedness (finite vs undefined), never values',
                  'powDef (positive base, or zero base with non-negative exponent) is taken as the condition under which Python float ** is finite and real',
                  'floating-point overflow for very large parameters is outside the model (theorems are over the reals)',
-                 'SDevice / TDevice Hessians (numdifftools) are evaluated only for n <= 3']
+                 'SDevice / TDevice Hessians (numdifftools) are evaluated for n <= 6, and n = 24 on leaves in the thorough tier; never for n = 31',
+                 'constraint values are required to have size 1 (SDevice returns (1,) arrays for device-shaped flows), cost to be 0-d']
 
   def __init__(self):
     self._hist = {}
@@ -820,6 +864,7 @@ class C10(Prop):
     for name in enabled_corners():
       out += corner_cases(rng, tier, name)
     for c in out:
+      c['_hmax'] = 24 if tier == 'thorough' else 6
       self._count(c)
     return out
 
@@ -878,11 +923,11 @@ class C10(Prop):
       if case['_shape'] == 'row':
         s = s.reshape(1, -1)
       pr = build.price(case['p'])
-      ops = [Op({'op': 'leaf.cost', 'dev': d, 's': case['s'], 'p': case['p']}, lambda: dev.cost(s, pr), 1e-9, 'leaf.cost'),
-             Op({'op': 'leaf.deriv', 'dev': d, 's': case['s'], 'p': case['p']}, lambda: dev.deriv(s, pr), 1e-9, 'leaf.deriv'),
+      ops = [Op({'op': 'usable.leaf.cost', 'dev': d, 's': case['s'], 'p': case['p']}, lambda: defined(dev.cost(s, pr)), 1e-9, 'leaf.cost'),
+             Op({'op': 'usable.leaf.deriv', 'dev': d, 's': case['s'], 'p': case['p']}, lambda: defined(dev.deriv(s, pr)), 1e-9, 'leaf.deriv'),
              Op({'op': 'usable.leafcons', 'dev': d, 's': case['s']}, lambda: Rows(cons_rows(dev, s)), 1e-9, 'leaf.cons')]
-      if d['cls'] not in NUMERIC_HESS or n <= 3:
-        ops.append(Op({'op': 'leaf.hess', 'dev': d, 's': case['s']}, lambda: dev.hess(s, pr), 1e-9, 'leaf.hess'))
+      if d['cls'] not in NUMERIC_HESS or numeric_hess_ok(case, n):
+        ops.append(Op({'op': 'usable.leaf.hess', 'dev': d, 's': case['s']}, lambda: defined(dev.hess(s, pr)), 1e-9, 'leaf.hess'))
       return ops
     if k == 'tree':
       t, n = case['tree'], case['n']
@@ -891,8 +936,8 @@ class C10(Prop):
       if case['_shape'] == 'flat':
         S = S.reshape(-1)
       P = build.price(case['P'])
-      return [Op({'op': 'tree.cost', 'tree': t, 'n': n, 'S': case['S'], 'P': case['P']}, lambda: dev.cost(S, P), 1e-9, 'tree.cost'),
-              Op({'op': 'tree.deriv', 'tree': t, 'n': n, 'S': case['S'], 'P': case['P']}, lambda: dev.deriv(S, P), 1e-9, 'tree.deriv'),
+      return [Op({'op': 'usable.tree.cost', 'tree': t, 'n': n, 'S': case['S'], 'P': case['P']}, lambda: defined(dev.cost(S, P)), 1e-9, 'tree.cost'),
+              Op({'op': 'usable.tree.deriv', 'tree': t, 'n': n, 'S': case['S'], 'P': case['P']}, lambda: defined(dev.deriv(S, P)), 1e-9, 'tree.deriv'),
               Op({'op': 'usable.treecons', 'tree': t, 'n': n, 'S': case['S']}, lambda: Rows(cons_rows(dev, S)), 1e-9, 'tree.cons')]
     return []
 
@@ -917,7 +962,7 @@ class C10(Prop):
         c2 = {'kind': 'leaf', 'dev': d, 's': L([F(v) for v in x.tolist()])}
         if has_abc_corner(d, [F(v) for v in x.tolist()]):
           continue                                    # the dedicated corner branches exhibit these
-        for kind, what, exc, msg in usable(dev, n_.array(x, dtype=float).reshape(dev.shape), 0.25, want_hess=(d['cls'] not in NUMERIC_HESS or d['n'] <= 3)):
+        for kind, what, exc, msg in usable(dev, n_.array(x, dtype=float).reshape(dev.shape), 0.25, want_hess=(d['cls'] not in NUMERIC_HESS or d['n'] <= 6)):
           fails.append(failure(d['cls'], kind, what, exc, leaf_corner(c2, what), msg, 'n=%d prm=%s bounds=%s..%s at the %s flow (accepted: %s)' % (
             d['n'], d['prm'], d['lb'], d['hb'], name, case['_why'])))
       return fails
@@ -930,7 +975,7 @@ class C10(Prop):
                         'n=%d prm=%s' % (d['n'], d['prm']))]
       x = build.arr(case['s']).reshape(dev.shape)
       pr = build.price(case['p'])
-      for kind, what, exc, msg in usable(dev, x, pr, want_hess=(d['cls'] not in NUMERIC_HESS or d['n'] <= 3)):
+      for kind, what, exc, msg in usable(dev, x, pr, want_hess=(d['cls'] not in NUMERIC_HESS or numeric_hess_ok(case, d['n']))):
         fails.append(failure(d['cls'], kind, what, exc, leaf_corner(case, what), msg,
                              'n=%d prm=%s lb=%s hb=%s cbs=%s s=%s p=%s' % (d['n'], d['prm'], d['lb'], d['hb'], d.get('cbs'), case['s'], case['p'])))
       return fails
@@ -944,7 +989,7 @@ class C10(Prop):
       numeric = any(b['dev']['cls'] in NUMERIC_HESS for b in blocks)
       x = build.arr(case['S']).reshape(dev.shape)
       cls = type(dev).__name__
-      for kind, what, exc, msg in usable(dev, x, build.price(case['P']), want_hess=(not numeric or n <= 3)):
+      for kind, what, exc, msg in usable(dev, x, build.price(case['P']), want_hess=(not numeric or numeric_hess_ok(case, n, tree=True))):
         fails.append(failure(cls, kind, what, exc, None, msg, 'n=%d rows=%d leaves=%s S=%s' % (
           n, dev.shape[0], [('MF:' if b['k'] == 'mf' else '') + b['dev']['cls'] for b in blocks], case['S'])))
       return fails
@@ -952,10 +997,12 @@ class C10(Prop):
     if case['what'] == 'len0':
       dk = C.repo()
       try:
-        getattr(dk, case['cls'])('z', 0, (0.0, 0.0))
+        dev = getattr(dk, case['cls'])('z', 0, (0.0, 0.0))
       except Exception:
-        return []
-      return [failure(case['cls'], 'accepted', 'len0', None, None, 'a device of length 0 is accepted (its /len(self) normalisation is undefined)', 'n=0')]
+        return []                                     # rejected (today: by numpy, "cannot call vectorize on size 0 inputs")
+      for kind, what, exc, msg in usable(dev, n_.zeros(dev.shape), 0.25):     # accepted: then it has to be usable
+        fails.append(failure(case['cls'], kind, what, exc, None, msg, 'a device of length 0 is accepted and not usable'))
+      return fails
     if case.get('reject'):
       try:
         dev, flows = build_raw(case)
